@@ -188,6 +188,18 @@ def rule_r4(ctx):
             ctx.r.violation(rid, key_of(a.func, None, "stamp-value"), "%s stamps last_activity with %s" % (fn, norm(val) if val is not None else "?"), a.loc)
         g = cfg_of(a.func)
         nodes = [nd for a2 in ws[fn] if a2.func is a.func for nd in g.nodes_of(a2.stmt)]  # every copy (an inlined helper is copied per call)
+        if fn == "service":
+            # 'request finished': the stamp follows the work - no way from a task's execution to the end of service()
+            # passes no stamp (stamped before the task runs, a connection whose request ran for longer than the timeout is
+            # reaped by the next maintenance pass although it only just became idle)
+            runs = [nd for nd in g.nodes if nd.kind == "stmt" and nd.ast is not None and any(isinstance(c, ast.Call) and isinstance(c.func, ast.Attribute) and c.func.attr == "service" and dotted(c.func.value) in ("task", "self.current_task") for c in ast.walk(nd.ast))]
+            if not runs:
+                raise AnalysisError("anchor vanished: the task execution in HTTPChannel.service")
+            skipped = [r for r in runs if g.path(r, g.exit, avoid=nodes, follow_exc=False) is not None]
+            if not skipped:
+                ctx.r.ok(rid, "stamped after the request was served: every normal way from task.service() to the end of service() passes the stamp", a.loc)
+            else:
+                ctx.r.violation(rid, key_of(a.func, None, "stamp-before-work"), "a normal path leads from the execution of a task to the end of service() without refreshing last_activity: the time the request took counts as idle time and the connection can be reaped the moment it becomes idle", a.func.loc(skipped[0].ast))
         if fn == "handle_read":
             if nodes and all(any(pol and isinstance(t, ast.Name) and local_derives_from_call(a.func, t.id, lambda c: dotted(c.func) == "self.recv") is True for (t, pol) in guards_of(g, nd)) for nd in nodes):
                 ctx.r.ok(rid, "stamped when data was received", a.loc)
